@@ -25,6 +25,9 @@ use serde_json::json;
 pub enum Via {
     Execute,
     SendTokens,
+    /// the bank keeper driven directly through `App::init_modules` (no transaction around it): a rejected
+    /// operation must still change nothing
+    Keeper,
 }
 
 #[derive(Clone, Debug, Serialize, Deserialize)]
@@ -157,6 +160,16 @@ pub fn apply(w: &mut World, op: &BOp, rep: &mut Report) -> Option<(String, Strin
                     .send_tokens(Addr::unchecked(from.clone()), Addr::unchecked(to.clone()), &to_coins(coins))
                     .map(|_| ())
                     .map_err(|e| e.to_string()),
+                Via::Keeper => {
+                    let block = w.app.block_info();
+                    let msg = BankMsg::Send { to_address: to.clone(), amount: to_coins(coins) };
+                    let sender = Addr::unchecked(from.clone());
+                    rep.bump("c09/send/through_the_keeper_without_a_transaction");
+                    w.app.init_modules(|router, api, storage| {
+                        use cw_multi_test::Module;
+                        router.bank.execute(api, storage, router, &block, sender, msg).map(|_| ()).map_err(|e| e.to_string())
+                    })
+                }
             });
             rep.bump(&format!("c09/send/{}/{}{}", class_of(coins), if ok { "valid" } else { "invalid" }, if from == to { "/self" } else { "" }));
             ("send", ok, r)
@@ -414,7 +427,7 @@ pub fn gen_op(rng: &mut Rng, w: &World) -> BOp {
             let from = gen_party(rng, w, false);
             let to = if rng.chance(1, 8) { from.clone() } else { gen_party(rng, w, true) };
             let coins = gen_coins(rng, &w.model, Some(&from));
-            BOp::Send { from, to, coins, via: if rng.chance(1, 3) { Via::SendTokens } else { Via::Execute } }
+            BOp::Send { from, to, coins, via: match rng.below(6) { 0 | 1 => Via::SendTokens, 2 => Via::Keeper, _ => Via::Execute } }
         }
         8..=10 => {
             let from = gen_party(rng, w, false);
